@@ -328,7 +328,12 @@ class Report:
         return True
 
     def not_shown(self, what, detail):
-        self.unshown.append((what, detail))
+        # keep the first few details per kind, count the rest
+        n = sum(1 for w, _ in self.unshown if w == what)
+        self.unshown_counts = getattr(self, "unshown_counts", {})
+        self.unshown_counts[what] = self.unshown_counts.get(what, 0) + 1
+        if n < 3:
+            self.unshown.append((what, detail))
 
     def finish(self):
         wall = time.time() - self.t0
@@ -363,7 +368,7 @@ class Report:
             cov["proof_messages"] = self.proof["messages"]
         cov["trusted_base"] = self.trusted
         cov["known_findings_reported"] = self.known
-        cov["not_shown"] = [w for w, _ in self.unshown]
+        cov["not_shown"] = getattr(self, "unshown_counts", {})
         cov.update(self.extra)
         if cov["distinct_nontrivial"] < 2 and cov["evaluations"] >= 2:
             pass
